@@ -106,6 +106,8 @@ struct Sim {
     // ---- monitor state (history of the implementation's own events)
     /// block -> hold id accepted for the current incarnation of the request and not resolved yet
     cur_hold: BTreeMap<u64, u64>,
+    /// blocks whose current holder reported success (`ok`) and whose request has not returned yet
+    ok_seen: BTreeSet<u64>,
     /// every announcement of a peer during the current step (incl. the one in force when the step began)
     ann_hist: BTreeMap<u64, Vec<(u64, Option<u64>)>>,
     /// all ops of the current case (for replays)
@@ -191,6 +193,7 @@ impl Sim {
             next_hold: 0,
             gates: BTreeMap::new(),
             cur_hold: BTreeMap::new(),
+            ok_seen: BTreeSet::new(),
             ann_hist: BTreeMap::new(),
             case_ops: vec![],
         }
@@ -231,6 +234,7 @@ impl Sim {
         self.avail.clear();
         self.next_hold = 0;
         self.cur_hold.clear();
+        self.ok_seen.clear();
         self.ann_hist.clear();
     }
 
@@ -394,6 +398,8 @@ impl Sim {
                     self.cur_hold.remove(&n);
                     if kind == "fail" {
                         out.count("fail_of_current_hold");
+                    } else {
+                        self.ok_seen.insert(n);
                     }
                 }
                 if kind == "ok" {
@@ -510,14 +516,15 @@ impl Sim {
                 Ev::Done(n) => {
                     self.reqs.remove(&n);
                     self.gates.remove(&(0, n));
-                    if self.cur_hold.contains_key(&n) {
-                        out.oracle_fail("done-while-held", "request completed although its holder has not reported success",
+                    if self.cur_hold.contains_key(&n) || !self.ok_seen.remove(&n) {
+                        out.oracle_fail("done-without-success", "request returned Ok although no holder of it has reported success (the block is not stored)",
                             json!({"op": "case", "ops": self.case_ops, "n": n}));
                     }
                     trace.push(json!(["done", n]));
                     out.count("ev:done");
                 }
                 Ev::Cancelled(n) => {
+                    self.ok_seen.remove(&n);
                     self.reqs.remove(&n);
                     self.gates.remove(&(0, n));
                     self.cur_hold.remove(&n);
